@@ -116,15 +116,20 @@ def point_lit(v, as_int=False):
     return repr(float(q))
 
 
+_RENDER_NAMES = {}          # parameter name -> name written in the program (projections: x -> free slot)
+
+
 def render(n):
     k = n[0]
+    if k == "fixed":
+        return n[1]             # a fixed slot of a projection: the argument letter (value in the argument list)
     if k == "const":
         return lit(n[1])
     if k == "vconst":
         # floats: numpy refuses integer arrays to negative integer powers (plain evaluation, not C06)
         return "[" + " ".join(point_lit(fr(c)) for c in n[1]) + "]"
     if k == "par":
-        return n[1]
+        return _RENDER_NAMES.get(n[1], n[1])
     if k in ("add", "sub", "mul", "div"):
         op = {"add": "+", "sub": "-", "mul": "*", "div": "%"}[k]
         return f"({render(n[1])}{op}{render(n[2])})"
@@ -909,6 +914,8 @@ def bindings(env, as_int, var):
 def value_program(body, env, var=None):
     """plain evaluation of the function at the point (precondition of every gradient form)"""
     names = list(env.params)
+    if (var or {}).get("proj"):
+        return projection_program("value", body, env, False, var["tree"], var)
     if names == ["x"]:
         return f"{bindings(env, False, var)};f::{{{body}}};f(x)"
     return f"{bindings(env, False, var)};loss::{{{body}}};loss()"
@@ -925,8 +932,39 @@ def bind_lit(v, as_int):
     return point_lit(v, True)
 
 
+UNRELATED_GLOBALS = "x::-7.5;y::10.0;z::4.0;"
+
+
+def projection_program(form, body, env, as_int, tree, var):
+    """every form with a projection as the function operand; the point never goes by the names
+    x y z (those are the projection's own argument names — and, variant `globals`, unrelated
+    session globals of the same names)"""
+    fun = function_text(body, tree, var)
+    p = point_lit(env.params["x"], as_int)
+    pre = UNRELATED_GLOBALS if var.get("globals") else ""
+    if env.kind("x") == "S" and env.params["x"] < 0 and form in ("nabla", "nabla-inline"):
+        form = "nabla-sym"          # `-1.5∇g` parses as -(1.5∇g)
+    pp = f"({p})" if env.kind("x") == "S" and env.params["x"] < 0 else p
+    return pre + {
+        "value": f"pt::{p};f::{fun};f(pt)",
+        "ag": f"{fun}:>{p}",
+        "ag-named": f"f::{fun};f:>{p}",
+        "ag-sym": f"pt::{p};f::{fun};f:>pt",
+        "nabla": f"g::{fun};{p}∇g",
+        "nabla-inline": f"{p}∇{fun}",
+        "nabla-sym": f"pt::{p};g::{fun};pt∇g",
+        "nabla-monad": f"g::{fun};gf::∇g;gf({p})",
+        "partial": f"{pp}∂{fun}",
+        "partial-named": f"g::{fun};{pp}∂g",
+        "sysjac": f".jacobian({fun};{p})",
+        "sysjac-named": f"g::{fun};.jacobian(g;{p})",
+    }[form]
+
+
 def program(form, body, env, as_int=False, tree=None, var=None):
     names = list(env.params)
+    if (var or {}).get("proj"):
+        return projection_program(form, body, env, as_int, tree, var)
     if form in SINGLE_FORMS + JAC_FORMS:
         p = point_lit(env.params["x"], as_int)
         if env.kind("x") == "M" and (var or {}).get("transposed"):
@@ -962,7 +1000,7 @@ def program(form, body, env, as_int=False, tree=None, var=None):
 
 def numeric_form(form, backend):
     """does this form differentiate numerically on this backend (else torch autograd)"""
-    if form in ("nabla", "nabla-sym"):
+    if form in ("nabla", "nabla-sym", "nabla-inline"):
         return True
     return backend == "numpy"
 
@@ -997,11 +1035,21 @@ def gen_point(rng, kind):
 def gen_case(rng, quick):
     """one (tree, parameters, family) triple inside the smooth domain"""
     for _ in range(40):
-        fam = rng.choice(["scalar", "vector", "vector", "matrix", "jac", "jac", "multi", "multi", "multi-jac", "probe"])
+        fam = rng.choice(["scalar", "vector", "vector", "matrix", "jac", "jac", "multi", "multi", "multi-jac", "probe",
+                          "proj", "proj-jac"])
         var = {}
         allow_trans = rng.random() < 0.3
         depth = rng.choice([1, 2, 2, 3] if quick else [1, 2, 2, 3, 3])
-        if fam == "probe":
+        if fam in ("proj", "proj-jac"):
+            # a projection (a dyad / triad with all but one argument fixed) as the function operand
+            params = {"x": gen_point(rng, rng.choice(["S", "V", "V"]) if fam == "proj" else "V")}
+            env = Env(params)
+            tree = gen_s(rng, env, depth, allow_trans) if fam == "proj" else gen_join(rng, env, depth, allow_trans)
+            if not depends(tree, "x"):
+                continue
+            tree, pj = make_projection(rng, tree)
+            var = dict(proj=pj, globals=rng.random() < 0.5)
+        elif fam == "probe":
             vector = rng.random() < 0.6
             params = {"x": gen_point(rng, "V" if vector else "S")}
             env = Env(params)
@@ -1062,6 +1110,8 @@ def strip_flat(tree):
         return tree
     if tree and tree[0] == "flat":
         return strip_flat(tree[1])
+    if tree and tree[0] == "fixed":
+        return strip_flat(tree[2])          # a fixed slot of a projection is its value
     return [strip_flat(a) for a in tree]
 
 
@@ -1070,10 +1120,70 @@ def oracle_env(env):
     return Env({k: (env.flat(k) if env.kind(k) == "M" else v) for k, v in env.params.items()})
 
 
-def render_case(tree):
-    if tree[0] == "sum" and isinstance(tree[1], list) and tree[1][0] == "flat":
-        return f"(+/,/{render(tree[1][1])})"
-    return render(tree)
+def render_case(tree, var=None):
+    proj = (var or {}).get("proj")
+    _RENDER_NAMES.clear()
+    if proj:
+        _RENDER_NAMES["x"] = proj["free"]
+    try:
+        if tree[0] == "sum" and isinstance(tree[1], list) and tree[1][0] == "flat":
+            return f"(+/,/{render(tree[1][1])})"
+        return render(tree)
+    finally:
+        _RENDER_NAMES.clear()
+
+
+def fixed_nodes(tree, acc=None):
+    acc = {} if acc is None else acc
+    if isinstance(tree, list):
+        if tree and tree[0] == "fixed":
+            acc[tree[1]] = tree[2]
+        else:
+            for a in tree:
+                if isinstance(a, list):
+                    fixed_nodes(a, acc)
+    return acc
+
+
+def function_text(body, tree, var):
+    """the function operand: `{body}`, or for a projection `{body}(a;;c)` — the fixed slots filled,
+    the free one left open"""
+    proj = (var or {}).get("proj")
+    if not proj:
+        return "{" + body + "}"
+    fx = fixed_nodes(tree)
+    args = ";".join("" if s_ == proj["free"] else render(fx[s_]) for s_ in "xyz"[:proj["arity"]])
+    return "{" + body + "}(" + args + ")"
+
+
+def make_projection(rng, tree):
+    """turn constant leaves of the tree into fixed slots of a dyad / triad; returns (tree, proj)"""
+    arity = rng.choice([2, 2, 3])
+    tree = json.loads(json.dumps(tree))     # no shared sub-lists (the mean pattern uses one twice)
+    paths = []
+
+    def walk(n, path):
+        if isinstance(n, list) and n and n[0] in ("const", "vconst"):
+            paths.append(path)
+        elif isinstance(n, list):
+            kids = list(enumerate(n[1])) if n and n[0] == "join" else list(enumerate(n))
+            for i, a in kids:
+                if isinstance(a, list):
+                    walk(a, path + ([1, i] if n[0] == "join" else [i]))
+    walk(tree, [])
+    while len(paths) < arity - 1:
+        tree = [rng.choice(["add", "mul"]), tree, ["const", frs(rng.choice(CONSTS))]]
+        paths = []
+        walk(tree, [])
+    free = rng.choice("xyz"[:arity])
+    slots = [c for c in "xyz"[:arity] if c != free]
+    for slot, path in zip(slots, rng.sample(paths, len(slots))):
+        node = tree
+        for i in path[:-1]:
+            node = node[i]
+        node[path[-1]] = ["fixed", slot, node[path[-1]]]
+    return tree, dict(free=free, arity=arity)
+
 
 
 # =========================================================================== comparison
@@ -1100,6 +1210,22 @@ def allowances(orc, backend, numeric, nops):
     return J, tol
 
 
+def run_case(ctx, model, real, fam, tree, params, **kw):
+    """one case; whatever a (changed) klongpy makes the harness choke on is a failure of the case with
+    the case as replay, never an infrastructure error"""
+    try:
+        return _run_case(ctx, model, real, fam, tree, params, **kw)
+    except common.Infra:
+        raise
+    except Exception as e:                                   # noqa: BLE001
+        import traceback
+        var = {k_: v_ for k_, v_ in (kw.get("var") or {}).items() if k_ != "tree"}
+        ctx.oracle_fail(f"harness:{type(e).__name__}", dict(family=fam, tree=tree, params=case_json(params),
+                                                           as_int=kw.get("as_int"), var=var),
+                        "a comparable result", traceback.format_exc()[-600:],
+                        "the harness could not evaluate / decode this case")
+
+
 def judge(got, orc, backend, numeric, nops):
     """'ok' | 'float32-evaluation' | 'wrong-value', with the exact table, tolerance and first bad index"""
     m, n = len(orc.jac), len(orc.jac[0])
@@ -1123,11 +1249,14 @@ def judge(got, orc, backend, numeric, nops):
     return kind, J, tol, (int(i), int(j))
 
 
-def run_case(ctx, model, real, fam, tree, params, forms=None, backends=None, quick=True, as_int=None, var=None):
+def _run_case(ctx, model, real, fam, tree, params, forms=None, backends=None, quick=True, as_int=None, var=None):
     env = Env(params)
     oenv = oracle_env(env)
     otree = strip_flat(tree)
-    body = render_case(tree)
+    body = render_case(tree, var)
+    proj = (var or {}).get("proj")
+    if proj:
+        var = dict(var, tree=tree)
     try:
         orc = Oracle(otree, oenv)
     except (NotSmooth, ZeroDivisionError, OverflowError, ValueError) as e:
@@ -1182,7 +1311,12 @@ def run_case(ctx, model, real, fam, tree, params, forms=None, backends=None, qui
             return
 
     if forms is None:
-        if fam == "probe":
+        if fam == "proj":
+            forms = ["nabla", "nabla-sym"] + ctx.rng.sample(["nabla-inline", "ag", "ag-named", "ag-sym", "nabla-monad"],
+                                                            2 if quick else 5)
+        elif fam == "proj-jac":
+            forms = ctx.rng.sample(JAC_FORMS, 2 if quick else 4)
+        elif fam == "probe":
             forms = ["nabla", "nabla-sym"] + ctx.rng.sample(["ag", "ag-named", "ag-sym", "nabla-monad"], 1 if quick else 4)
         elif fam in ("scalar", "vector"):
             forms = ctx.rng.sample(SINGLE_FORMS, 3 if quick else 6)
@@ -1197,6 +1331,9 @@ def run_case(ctx, model, real, fam, tree, params, forms=None, backends=None, qui
     if backends is None:
         backends = ["numpy"] + (["torch"] if real.have_torch() else [])
 
+    if proj:
+        for backend in backends:
+            real.drop(backend)          # a session in which y and z are not defined (unless `globals`)
     # ---- precondition: the function itself evaluates to its value on this backend (else the
     #      case says nothing about differentiation: plain evaluation is C01 / C08)
     usable = []
@@ -1219,7 +1356,7 @@ def run_case(ctx, model, real, fam, tree, params, forms=None, backends=None, qui
             ctx.extra.setdefault("function_value_differs", [])
             if len(ctx.extra["function_value_differs"]) < 12:
                 ctx.extra["function_value_differs"].append(
-                    dict(backend=backend, program=value_program(body, env), got=repr(val)[:120],
+                    dict(backend=backend, program=value_program(body, env, var), got=repr(val)[:120],
                          want=[float(v) for v in orc.val]))
     backends = usable
     unused = [nm for nm in env.params if not depends(tree, nm)]
@@ -1232,7 +1369,7 @@ def run_case(ctx, model, real, fam, tree, params, forms=None, backends=None, qui
         else:
             as_int = r < 0.2
     base["as_int"] = as_int
-    base["var"] = var or {}
+    base["var"] = {k_: v_ for k_, v_ in (var or {}).items() if k_ != "tree"}
     results = {}
     for form in forms:
         prog = program(form, body, env, as_int, tree, var)
@@ -1248,6 +1385,17 @@ def run_case(ctx, model, real, fam, tree, params, forms=None, backends=None, qui
                 numeric = True
                 site = "torch:jacobian:numeric-fallback"
                 ctx.bump("torch-jacobian-fell-back-to-numeric")
+            if proj and form not in ("nabla", "nabla-sym", "nabla-inline"):
+                # every form except dyadic ∇ reaches the function through autograd._invoke_fn, which unwraps
+                # a KGFn to its body and so drops a projection's fixed arguments
+                g0 = assemble(val, form, env, m, n) if status == "ok" else None
+                if g0 is None or judge(g0, orc, backend, numeric or fell_back, nops)[0] == "wrong-value":
+                    ctx.bump("deviation:projection:fixed-arguments-dropped")
+                    ctx.oracle_fail("projection:fixed-arguments-dropped", case, [[float(q) for q in r] for r in orc.jac],
+                                    val if status == "exc" else g0.tolist() if g0 is not None else repr(val)[:200],
+                                    "a projection as the function operand of :> / ∇f / ∂ / .jacobian loses its fixed "
+                                    "arguments (they resolve to same-named globals or stay bare symbols); p∇f is right")
+                    continue
             if form in ("sysjac", "sysjac-named"):
                 # `.jacobian(f;p)` receives f through the interpreter's evaluation of SYSTEM-function
                 # arguments (`call`), which invokes / partially applies function values whose body holds
@@ -1352,6 +1500,9 @@ def run_case(ctx, model, real, fam, tree, params, forms=None, backends=None, qui
                                 a.tolist(), b.tolist(), "numpy and torch differ by more than both tolerances")
             else:
                 ctx.bump("ok:backends-agree")
+    if proj:
+        for backend in list(real.k):
+            real.drop(backend)
     ctx.sample(dict(body=body, params=case_json(params), forms=forms,
                     exact=[[float(x) for x in r] for r in orc.jac]))
     for o in ops_in(tree):
@@ -1377,7 +1528,7 @@ def assemble(val, form, env, m, n):
         a = np.asarray(val, dtype=float)
         if a.size != m * n:
             return None
-        if form in SINGLE_FORMS and a.shape != shape_of(env.params["x"]):
+        if form in SINGLE_FORMS + ["nabla-inline"] and a.shape != shape_of(env.params["x"]):
             return None
         return a.reshape(m, n)
     except Exception:
@@ -1433,151 +1584,163 @@ def run_bookkeeping(ctx, drv, count):
     k = KlongInterpreter()
     be = k._backend
     for it in range(count):
-        kind = ctx.rng.choice(["grad", "grad", "grad2d", "grad2dT", "grad0d", "jac", "multi"])
-        if kind == "grad0d":
-            shape = ()
-        elif kind in ("grad2d", "grad2dT"):
-            shape = ctx.rng.choice([(2, 2), (2, 3), (3, 2), (1, 3)])
-        else:
-            shape = (ctx.rng.randrange(1, 5),)
-        n = int(np.prod(shape)) if shape else 1
-        x = [ctx.rng.choice(GRID) for _ in range(n)]
-        p = ",".join(frs(v) for v in x)
-        log = []
-        if kind in ("grad", "grad2d", "grad2dT", "grad0d"):
-            t = quad_tree(ctx.rng, n)
+        try:
+            _bookkeeping_once(ctx, drv, ag, k, be, KGSym)
+        except common.Infra:
+            raise
+        except Exception as e:                               # noqa: BLE001
+            import traceback
+            ctx.oracle_fail(f"harness:bookkeeping:{type(e).__name__}", dict(kind="bookkeeping", iteration=it),
+                            "a comparable result", traceback.format_exc()[-600:])
 
-            def f(y, t=t, shape=shape):
-                y = np.asarray(y)
-                ok_shape = y.shape == shape
-                log.append(([float(v) for v in y.reshape(-1)], ok_shape))
-                return ev_tree(t, y.reshape(-1))
-            xin = np.array([float(v) for v in x], dtype=float).reshape(shape)
-            if kind == "grad2dT":
-                # the same point as a transposed view: column-major memory, not C-contiguous
-                xin = np.ascontiguousarray(xin.T).T
-                assert not xin.flags["C_CONTIGUOUS"] or 1 in shape
-            case = dict(kind="bookkeeping:numeric_grad", shape=list(shape), x=[frs(v) for v in x], f=toks(t),
-                        layout="transposed" if kind == "grad2dT" else "row-major")
-            ctx.count(("bk", kind, p, toks(t)))
-            try:
-                g = ag.numeric_grad(f, xin, be)
-            except Exception as e:
-                ctx.oracle_fail("numpy:numeric_grad:raises:" + type(e).__name__, case, "a gradient", repr(e))
-                continue
-            r = fields(drv.ask(f"numgrad e={toks(t)} p={p} eps={frs(EPS)}")) if drv else None
-            exact = fields(drv.ask(f"grad e={toks(t)} p={p}")) if drv else None
-            if r:
-                mg, mp = rats(r["grad"]), rows(r["probes"])
-                if rats(exact["grad"]) != mg:
-                    ctx.mismatch("central_diff_exact_quadratic instance: model loop vs exact gradient of a quadratic",
-                                 case, r["grad"], exact["grad"])
-                seen = [q for q, _ in log]
+
+def _bookkeeping_once(ctx, drv, ag, k, be, KGSym):
+    if True:
+            kind = ctx.rng.choice(["grad", "grad", "grad2d", "grad2dT", "grad0d", "jac", "multi"])
+            if kind == "grad0d":
+                shape = ()
+            elif kind in ("grad2d", "grad2dT"):
+                shape = ctx.rng.choice([(2, 2), (2, 3), (3, 2), (1, 3)])
+            else:
+                shape = (ctx.rng.randrange(1, 5),)
+            n = int(np.prod(shape)) if shape else 1
+            x = [ctx.rng.choice(GRID) for _ in range(n)]
+            p = ",".join(frs(v) for v in x)
+            log = []
+            if kind in ("grad", "grad2d", "grad2dT", "grad0d"):
+                t = quad_tree(ctx.rng, n)
+
+                def f(y, t=t, shape=shape):
+                    y = np.asarray(y)
+                    ok_shape = y.shape == shape
+                    log.append(([float(v) for v in y.reshape(-1)], ok_shape))
+                    return ev_tree(t, y.reshape(-1))
+                xin = np.array([float(v) for v in x], dtype=float).reshape(shape)
                 if kind == "grad2dT":
-                    # np.nditer walks a column-major array in memory order: the same probes, another order
-                    seen = sorted(seen)
-                    mp = sorted(mp, key=lambda q: [float(v) for v in q])
-                if not close_seq(seen, mp) or not all(ok for _, ok in log):
-                    ctx.mismatch("Klong.C06.numGradState.probes vs numeric_grad call arguments", case,
-                                 [[float(v) for v in q] for q in mp], [q for q, _ in log])
-                    continue
-                gg = np.asarray(g, dtype=float)
-                scale = max(1.0, max(abs(float(v)) for v in mg), max(abs(ev_tree(t, q)) for q, _ in log))
-                if gg.shape != shape or not np.allclose(gg.reshape(-1), [float(v) for v in mg], rtol=0, atol=2e-8 * scale):
-                    ctx.mismatch("Klong.C06.numGrad vs numeric_grad result", case, [float(v) for v in mg], gg.tolist())
-                    # the property's own oracle: a quadratic's gradient is known exactly
-                    if gg.shape != shape or not np.allclose(gg.reshape(-1), [float(v) for v in mg], rtol=1e-5, atol=1e-5 * scale):
-                        ctx.oracle_fail("numpy:numeric_grad:wrong-value", case, [float(v) for v in mg], gg.tolist())
-                    continue
-            ctx.bump("bookkeeping:numeric_grad:" + ("0d" if shape == () else f"{len(shape)}d") +
-                     ("-transposed" if kind == "grad2dT" else ""))
-        elif kind == "jac":
-            mo = ctx.rng.randrange(1, 4)
-            ts = [quad_tree(ctx.rng, n) for _ in range(mo)]
+                    # the same point as a transposed view: column-major memory, not C-contiguous
+                    xin = np.ascontiguousarray(xin.T).T
+                    assert not xin.flags["C_CONTIGUOUS"] or 1 in shape
+                case = dict(kind="bookkeeping:numeric_grad", shape=list(shape), x=[frs(v) for v in x], f=toks(t),
+                            layout="transposed" if kind == "grad2dT" else "row-major")
+                ctx.count(("bk", kind, p, toks(t)))
+                try:
+                    g = ag.numeric_grad(f, xin, be)
+                except Exception as e:
+                    ctx.oracle_fail("numpy:numeric_grad:raises:" + type(e).__name__, case, "a gradient", repr(e))
+                    return
+                r = fields(drv.ask(f"numgrad e={toks(t)} p={p} eps={frs(EPS)}")) if drv else None
+                exact = fields(drv.ask(f"grad e={toks(t)} p={p}")) if drv else None
+                if r:
+                    mg, mp = rats(r["grad"]), rows(r["probes"])
+                    if rats(exact["grad"]) != mg:
+                        ctx.mismatch("central_diff_exact_quadratic instance: model loop vs exact gradient of a quadratic",
+                                     case, r["grad"], exact["grad"])
+                    seen = [q for q, _ in log]
+                    if kind == "grad2dT":
+                        # np.nditer walks a column-major array in memory order: the same probes, another order
+                        seen = sorted(seen)
+                        mp = sorted(mp, key=lambda q: [float(v) for v in q])
+                    if not close_seq(seen, mp) or not all(ok for _, ok in log):
+                        ctx.mismatch("Klong.C06.numGradState.probes vs numeric_grad call arguments", case,
+                                     [[float(v) for v in q] for q in mp], [q for q, _ in log])
+                        return
+                    gg = np.asarray(g, dtype=float)
+                    scale = max(1.0, max(abs(float(v)) for v in mg), max(abs(ev_tree(t, q)) for q, _ in log))
+                    if gg.shape != shape or not np.allclose(gg.reshape(-1), [float(v) for v in mg], rtol=0, atol=2e-8 * scale):
+                        ctx.mismatch("Klong.C06.numGrad vs numeric_grad result", case, [float(v) for v in mg], gg.tolist())
+                        # the property's own oracle: a quadratic's gradient is known exactly
+                        if gg.shape != shape or not np.allclose(gg.reshape(-1), [float(v) for v in mg], rtol=1e-5, atol=1e-5 * scale):
+                            ctx.oracle_fail("numpy:numeric_grad:wrong-value", case, [float(v) for v in mg], gg.tolist())
+                        return
+                ctx.bump("bookkeeping:numeric_grad:" + ("0d" if shape == () else f"{len(shape)}d") +
+                         ("-transposed" if kind == "grad2dT" else ""))
+            elif kind == "jac":
+                mo = ctx.rng.randrange(1, 4)
+                ts = [quad_tree(ctx.rng, n) for _ in range(mo)]
 
-            def g(y, ts=ts):
-                y = np.asarray(y)
-                log.append([float(v) for v in y.reshape(-1)])
-                return np.array([ev_tree(t, y.reshape(-1)) for t in ts])
-            case = dict(kind="bookkeeping:numeric_jacobian", x=[frs(v) for v in x], g=[toks(t) for t in ts])
-            ctx.count(("bk", kind, p, tuple(toks(t) for t in ts)))
-            try:
-                J = ag.numeric_jacobian(g, np.array([float(v) for v in x]), be)
-            except Exception as e:
-                ctx.oracle_fail("numpy:numeric_jacobian:raises:" + type(e).__name__, case, "a Jacobian", repr(e))
-                continue
-            if drv:
-                es = ";".join(toks(t) for t in ts)
-                r = fields(drv.ask(f"numjac es={es} p={p} eps={frs(EPS)}"))
-                ex = fields(drv.ask(f"jac es={es} p={p}"))
-                mj, mp = rows(r["jac"]), rows(r["probes"])
-                if rows(ex["jac"]) != mj:
-                    ctx.mismatch("central_diff_exact_quadratic instance: numJacobian vs exact Jacobian of quadratics",
-                                 case, r["jac"], ex["jac"])
-                if not close_seq(log, mp):
-                    ctx.mismatch("Klong.C06.numJacState.probes vs numeric_jacobian call arguments", case,
-                                 [[float(v) for v in q] for q in mp], log)
-                    continue
-                want = np.array([[float(v) for v in row] for row in mj]).reshape(mo, n)
-                scale = max(1.0, float(np.max(np.abs(want))), max(abs(ev_tree(t, q)) for q in log for t in ts))
-                JJ = np.asarray(J, dtype=float)
-                if JJ.shape != (mo, n) or not np.allclose(JJ, want, rtol=0, atol=2e-8 * scale):
-                    ctx.mismatch("Klong.C06.numJacobian vs numeric_jacobian result", case, want.tolist(), JJ.tolist())
-                    if JJ.shape != (mo, n) or not np.allclose(JJ, want, rtol=1e-5, atol=1e-5 * scale):
-                        ctx.oracle_fail("numpy:numeric_jacobian:wrong-value", case, want.tolist(), JJ.tolist(),
-                                        "J[i,j] must be d out_i / d in_j")
-                    continue
-            ctx.bump("bookkeeping:numeric_jacobian")
-        else:
-            names = ["w", "b", "c"][:ctx.rng.randrange(2, 4)]
-            sizes = [ctx.rng.randrange(1, 4) if nm != "b" else 0 for nm in names]     # 0 = scalar
-            vals, flat = {}, []
-            for nm, sz in zip(names, sizes):
-                v = [ctx.rng.choice(GRID) for _ in range(max(1, sz))]
-                vals[nm] = v
-                flat += v
-            t = quad_tree(ctx.rng, len(flat))
-            for nm, sz in zip(names, sizes):
-                k[nm] = float(vals[nm][0]) if sz == 0 else np.array([float(v) for v in vals[nm]])
+                def g(y, ts=ts):
+                    y = np.asarray(y)
+                    log.append([float(v) for v in y.reshape(-1)])
+                    return np.array([ev_tree(t, y.reshape(-1)) for t in ts])
+                case = dict(kind="bookkeeping:numeric_jacobian", x=[frs(v) for v in x], g=[toks(t) for t in ts])
+                ctx.count(("bk", kind, p, tuple(toks(t) for t in ts)))
+                try:
+                    J = ag.numeric_jacobian(g, np.array([float(v) for v in x]), be)
+                except Exception as e:
+                    ctx.oracle_fail("numpy:numeric_jacobian:raises:" + type(e).__name__, case, "a Jacobian", repr(e))
+                    return
+                if drv:
+                    es = ";".join(toks(t) for t in ts)
+                    r = fields(drv.ask(f"numjac es={es} p={p} eps={frs(EPS)}"))
+                    ex = fields(drv.ask(f"jac es={es} p={p}"))
+                    mj, mp = rows(r["jac"]), rows(r["probes"])
+                    if rows(ex["jac"]) != mj:
+                        ctx.mismatch("central_diff_exact_quadratic instance: numJacobian vs exact Jacobian of quadratics",
+                                     case, r["jac"], ex["jac"])
+                    if not close_seq(log, mp):
+                        ctx.mismatch("Klong.C06.numJacState.probes vs numeric_jacobian call arguments", case,
+                                     [[float(v) for v in q] for q in mp], log)
+                        return
+                    want = np.array([[float(v) for v in row] for row in mj]).reshape(mo, n)
+                    scale = max(1.0, float(np.max(np.abs(want))), max(abs(ev_tree(t, q)) for q in log for t in ts))
+                    JJ = np.asarray(J, dtype=float)
+                    if JJ.shape != (mo, n) or not np.allclose(JJ, want, rtol=0, atol=2e-8 * scale):
+                        ctx.mismatch("Klong.C06.numJacobian vs numeric_jacobian result", case, want.tolist(), JJ.tolist())
+                        if JJ.shape != (mo, n) or not np.allclose(JJ, want, rtol=1e-5, atol=1e-5 * scale):
+                            ctx.oracle_fail("numpy:numeric_jacobian:wrong-value", case, want.tolist(), JJ.tolist(),
+                                            "J[i,j] must be d out_i / d in_j")
+                        return
+                ctx.bump("bookkeeping:numeric_jacobian")
+            else:
+                names = ["w", "b", "c"][:ctx.rng.randrange(2, 4)]
+                sizes = [ctx.rng.randrange(1, 4) if nm != "b" else 0 for nm in names]     # 0 = scalar
+                vals, flat = {}, []
+                for nm, sz in zip(names, sizes):
+                    v = [ctx.rng.choice(GRID) for _ in range(max(1, sz))]
+                    vals[nm] = v
+                    flat += v
+                t = quad_tree(ctx.rng, len(flat))
+                for nm, sz in zip(names, sizes):
+                    k[nm] = float(vals[nm][0]) if sz == 0 else np.array([float(v) for v in vals[nm]])
 
-            def loss(t=t, names=names):
-                cur = []
-                for nm in names:
-                    cur.append([float(v) for v in np.asarray(k[nm], dtype=float).reshape(-1)])
-                log.append(cur)
-                return ev_tree(t, [v for blk in cur for v in blk])
-            ps = ";".join(",".join(frs(v) for v in vals[nm]) for nm in names)
-            case = dict(kind="bookkeeping:multi_grad_of_fn", params={nm: [frs(v) for v in vals[nm]] for nm in names},
-                        f=toks(t))
-            ctx.count(("bk", kind, ps, toks(t)))
-            try:
-                gs = ag.multi_grad_of_fn(k, loss, [KGSym(nm) for nm in names])
-            except Exception as e:
-                ctx.oracle_fail("numpy:multi_grad_of_fn:raises:" + type(e).__name__, case, "gradients", repr(e))
-                continue
-            if drv:
-                r = fields(drv.ask(f"multigrad e={toks(t)} params={ps} eps={frs(EPS)}"))
-                ex = fields(drv.ask(f"grad e={toks(t)} p={','.join(frs(v) for v in flat)}"))
-                mg = rows(r["grads"])
-                mp = [rows(q) for q in r["probes"].split("|") if q]
-                if [v for blk in mg for v in blk] != rats(ex["grad"]):
-                    ctx.mismatch("central_diff_exact_quadratic instance: multiGrad vs exact gradient of a quadratic",
-                                 case, r["grads"], ex["grad"])
-                same = len(mp) == len(log) and all(close_seq(a, b) for a, b in zip(log, mp))
-                if not same:
-                    ctx.mismatch("Klong.C06.multiGradState.probes vs bindings seen by the loss in multi_grad_of_fn",
-                                 case, [[[float(v) for v in blk] for blk in q] for q in mp], log)
-                    continue
-                got = np.concatenate([np.asarray(g, dtype=float).reshape(-1) for g in gs])
-                want = np.array([float(v) for blk in mg for v in blk])
-                scale = max(1.0, float(np.max(np.abs(want))),
-                            max(abs(ev_tree(t, [v for blk in q for v in blk])) for q in log))
-                if len(gs) != len(names) or got.shape != want.shape or not np.allclose(got, want, rtol=0, atol=2e-8 * scale):
-                    ctx.mismatch("Klong.C06.multiGrad vs multi_grad_of_fn result", case, want.tolist(), got.tolist())
-                    if got.shape != want.shape or not np.allclose(got, want, rtol=1e-5, atol=1e-5 * scale):
-                        ctx.oracle_fail("numpy:multi_grad_of_fn:wrong-value", case, want.tolist(), got.tolist())
-                    continue
-            ctx.bump("bookkeeping:multi_grad_of_fn")
+                def loss(t=t, names=names):
+                    cur = []
+                    for nm in names:
+                        cur.append([float(v) for v in np.asarray(k[nm], dtype=float).reshape(-1)])
+                    log.append(cur)
+                    return ev_tree(t, [v for blk in cur for v in blk])
+                ps = ";".join(",".join(frs(v) for v in vals[nm]) for nm in names)
+                case = dict(kind="bookkeeping:multi_grad_of_fn", params={nm: [frs(v) for v in vals[nm]] for nm in names},
+                            f=toks(t))
+                ctx.count(("bk", kind, ps, toks(t)))
+                try:
+                    gs = ag.multi_grad_of_fn(k, loss, [KGSym(nm) for nm in names])
+                except Exception as e:
+                    ctx.oracle_fail("numpy:multi_grad_of_fn:raises:" + type(e).__name__, case, "gradients", repr(e))
+                    return
+                if drv:
+                    r = fields(drv.ask(f"multigrad e={toks(t)} params={ps} eps={frs(EPS)}"))
+                    ex = fields(drv.ask(f"grad e={toks(t)} p={','.join(frs(v) for v in flat)}"))
+                    mg = rows(r["grads"])
+                    mp = [rows(q) for q in r["probes"].split("|") if q]
+                    if [v for blk in mg for v in blk] != rats(ex["grad"]):
+                        ctx.mismatch("central_diff_exact_quadratic instance: multiGrad vs exact gradient of a quadratic",
+                                     case, r["grads"], ex["grad"])
+                    same = len(mp) == len(log) and all(close_seq(a, b) for a, b in zip(log, mp))
+                    if not same:
+                        ctx.mismatch("Klong.C06.multiGradState.probes vs bindings seen by the loss in multi_grad_of_fn",
+                                     case, [[[float(v) for v in blk] for blk in q] for q in mp], log)
+                        return
+                    got = np.concatenate([np.asarray(g, dtype=float).reshape(-1) for g in gs])
+                    want = np.array([float(v) for blk in mg for v in blk])
+                    scale = max(1.0, float(np.max(np.abs(want))),
+                                max(abs(ev_tree(t, [v for blk in q for v in blk])) for q in log))
+                    if len(gs) != len(names) or got.shape != want.shape or not np.allclose(got, want, rtol=0, atol=2e-8 * scale):
+                        ctx.mismatch("Klong.C06.multiGrad vs multi_grad_of_fn result", case, want.tolist(), got.tolist())
+                        if got.shape != want.shape or not np.allclose(got, want, rtol=1e-5, atol=1e-5 * scale):
+                            ctx.oracle_fail("numpy:multi_grad_of_fn:wrong-value", case, want.tolist(), got.tolist())
+                        return
+                ctx.bump("bookkeeping:multi_grad_of_fn")
 
 
 # =========================================================================== fixed cases (always run)
@@ -1614,6 +1777,21 @@ FIXED = [
     ("probe", ["sum", ["call", "exp", ["par", "x"]]], {"x": [Fr(1), Fr(2), Fr(-1, 2)]}),
     ("probe", ["mul", ["call", "sqrt", ["par", "x"]], ["call", "log", ["par", "x"]]], {"x": Fr(2)}),
     ("probe", ["sum", ["mul", ["par", "x"], ["call", "cos", ["par", "x"]]]], {"x": [Fr(3, 2), Fr(3)]}),
+    # projections as the function operand, with and without unrelated globals named like the slots
+    ("proj", ["mul", ["par", "x"], ["fixed", "y", ["const", "3/1"]]], {"x": Fr(2)},
+     dict(proj=dict(free="x", arity=2), globals=True)),
+    ("proj", ["mul", ["par", "x"], ["fixed", "y", ["const", "3/1"]]], {"x": Fr(2)},
+     dict(proj=dict(free="x", arity=2), globals=False)),
+    ("proj", ["mul", ["fixed", "x", ["const", "3/1"]], ["pow", ["par", "x"], 2]], {"x": Fr(2)},
+     dict(proj=dict(free="y", arity=2), globals=True)),
+    ("proj", ["div", ["sum", ["pow", ["sub", ["par", "x"], ["fixed", "y", ["vconst", ["1/1", "2/1", "3/1"]]]], 2]],
+              ["count", ["par", "x"]]], {"x": [Fr(1, 2), Fr(1, 2), Fr(1, 2)]},
+     dict(proj=dict(free="x", arity=2), globals=True)),
+    ("proj", ["add", ["mul", ["fixed", "x", ["const", "2/1"]], ["par", "x"]],
+              ["mul", ["fixed", "z", ["const", "5/1"]], ["pow", ["par", "x"], 2]]], {"x": Fr(4)},
+     dict(proj=dict(free="y", arity=3), globals=False)),
+    ("proj-jac", ["mul", ["par", "x"], ["fixed", "y", ["const", "3/1"]]], {"x": [Fr(1), Fr(2)]},
+     dict(proj=dict(free="x", arity=2), globals=True)),
     # matrix points with the transposed (column-major) layout, M::+A
     ("matrix", ["sum", ["flat", ["mul", ["par", "x"], ["par", "x"]]]],
      {"x": [[Fr(1), Fr(4)], [Fr(2), Fr(5)], [Fr(3), Fr(6)]]}, dict(transposed=True)),
